@@ -76,8 +76,8 @@ def generate(tier, rng):
             calls_nm = [c for i, c in enumerate(calls_nm) if c["op"] != "ctor" or i % 3 == 0]
             calls_lt = rng.sample(calls_lt, len(calls_lt) // 4)
         elif k == 4:
-            calls_nm = rng.sample(calls_nm, len(calls_nm) // 6)
-            calls_lt = rng.sample(calls_lt, len(calls_lt) // 24)
+            calls_nm = rng.sample(calls_nm, len(calls_nm) // 12)
+            calls_lt = rng.sample(calls_lt, len(calls_lt) // 48)
         for call in calls_nm:
             base.append(fc.mk("nm", False, k, st + [call], cls=rng.choice(fc.NM_CLASSES)))
         for call in calls_lt:
